@@ -20,14 +20,14 @@ RULE = (
 )
 ASSUMPTIONS = ["sliding-window reference written from the statement (per channel: drop oldest, append prediction; constants in place; input key order kept)"]
 ANCHORS = ["ginjax.ml.training:autoregressive_step", "ginjax.ml.training:autoregressive_map", "ginjax.geometric.multi_image:MultiImage.concat_inverse", "ginjax.geometric.multi_image:MultiImage.expand"]
-MIN_NONTRIVIAL = {"quick": 60, "thorough": 1000}
+MIN_NONTRIVIAL = {"quick": 60, "thorough": 3000}
 WORKERS = {"quick": 6, "thorough": 16}
 TIMEOUT = {"quick": 900, "thorough": 3600}
 TCODE = {(0, 0): 1, (0, 1): 2, (1, 0): 3, (1, 1): 4, (2, 0): 5}
 
 
 def cases(tier, seed):
-    n = 150 if tier == "quick" else 3000
+    n = 150 if tier == "quick" else 8000
     return [{"n": i, "family": "ids" if i % 3 else "linear"} for i in range(n)]
 
 
